@@ -113,12 +113,31 @@ Definition sampler_mismatches (cs : list (N * Z * Z * bool)) : list N :=
 (* ---- stacks: what the innermost handler found (RequestIDKey value, x-request-id
    metadata values, the three trace keys) and what the client stack called from the
    handler put on the wire ---- *)
-Definition stack_case := (N * kind * list layer * headers * list client_layer * (option bytes * list bytes * tctx * option thdrs))%type.
+Definition stack_case := (N * kind * list layer * headers * list client_layer * list wevent *
+                          (option bytes * list bytes * tctx * option thdrs) *
+                          (list bytes * list (Z * N) * (Z * N)))%type.
 
+(* logs: the id every Log layer printed (outermost first); http only: the status /
+   bytes every Log layer printed and what the recorder underneath received *)
 Definition stack_mismatches (cs : list stack_case) : list N :=
-  flat_map (fun c => match c with (i, k, ls, h, cl, (orid, omd, octx, ofwd)) =>
-     let s := run_stack k ls {| s_rid := None; s_md := h; s_tctx := empty_ctx |} in
+  flat_map (fun c => match c with (i, k, ls, h, cl, hist, (orid, omd, octx, ofwd), (oids, oreports, (wst, wby))) =>
+     let s := run_stack k ls {| s_rid := None; s_md := h; s_tctx := empty_ctx; s_logs := [] |} in
      let mdok := match k with KHttp => true | _ => eqb_list eqb_bytes (hvals (s_md s) XRID) omd end in
+     let reps := log_reports ls hist in
+     let w := sent (writer_history ls hist) in
+     let repok := match k with
+                  | KHttp => eqb_list (fun a b => (fst a =? fst b)%Z && N.eqb (snd a) (snd b))
+                                      (map (fun c => (cap_status c, cap_bytes c)) reps) oreports &&
+                             (match w_status w with Some st => st | None => 200%Z end =? wst)%Z && N.eqb (w_bytes w) wby
+                  | _ => is_nil oreports
+                  end in
      if eqb_opt eqb_bytes (s_rid s) orid && mdok && eqb_ctx (s_tctx s) octx &&
-        eqb_opt eqb_thdrs (client_stack cl (s_tctx s) ([], [])) ofwd
+        eqb_opt eqb_thdrs (client_stack cl (s_tctx s) ([], [])) ofwd &&
+        eqb_list eqb_bytes (s_logs s) oids && forallb (fun b => negb (is_empty b)) oids && repok
+     then [] else [i] end) cs.
+
+(* ---- option constructors: does building the option list panic? ---- *)
+Definition opts_mismatches (cs : list (N * list trace_opt * bool)) : list N :=
+  flat_map (fun c => match c with (i, xs, panicked) =>
+     if Bool.eqb (match trace_options_checked xs with None => true | Some _ => false end) panicked
      then [] else [i] end) cs.
